@@ -15,7 +15,7 @@ CONSTANTS
   MaxCtr = 1
   LoadCap = 2
   MaxReq = 2
-  CmdsOf <- C11Entry
+  CmdsOf <- C11Entry3
   Export = TRUE
 SPECIFICATION Spec
 INVARIANT TypeOK
